@@ -488,6 +488,9 @@ enum Step {
     Done,
     Skip,
     Panic,
+    /// a call at an index that does not exist (`unwrap` of `get_entry` / `get_relation`): the code
+    /// panics before it touches the tree; `true` = it did
+    OutOfRange(bool),
 }
 
 fn run_hist(start: &str, allow: bool, ops: &str) -> Resp {
@@ -544,6 +547,17 @@ fn run_hist(start: &str, allow: bool, ops: &str) -> Resp {
             Some(Step::Skip) => {
                 blocks.push(format!("{} => SKIP", op));
                 continue;
+            }
+            Some(Step::OutOfRange(true)) => {
+                blocks.push(format!("{} => PANIC", op));
+                break;
+            }
+            Some(Step::OutOfRange(false)) => {
+                blocks.push(format!("{} => RETURNED", op));
+                if fail.is_none() {
+                    fail = Some(format!("step {} `{}`: the call returned although the index does not exist", step, readable_op(op)));
+                }
+                break;
             }
             Some(Step::Done) => {}
         }
@@ -745,10 +759,14 @@ fn apply(root: &mut Relations, model: &mut Model, handles: &mut Handles, f: &[&s
         }
         ["repl", i, way, t] => {
             let i = idx(i).unwrap_or(usize::MAX);
-            let o = entry_operand(root, model, handles, way, t);
-            let pos = match (&o, model.entry_pos(i)) {
+            let mut o = entry_operand(root, model, handles, way, t);
+            let pos = match (o, model.entry_pos(i)) {
+                (Opnd::Ok(_, e), None) => return Step::OutOfRange(guard(|| root.replace(i, e)).is_none()),
                 (Opnd::Skip, _) | (_, None) => return Step::Skip,
-                (_, Some(p)) => p,
+                (o2, Some(p)) => {
+                    o = o2;
+                    p
+                }
             };
             let (rels, e) = match o {
                 Opnd::Ok(r, e) => (r, e),
@@ -763,6 +781,7 @@ fn apply(root: &mut Relations, model: &mut Model, handles: &mut Handles, f: &[&s
             let i = idx(i).unwrap_or(usize::MAX);
             let pos = match model.entry_pos(i) {
                 Some(p) => p,
+                None if *mode == "f" => return Step::OutOfRange(guard(|| root.remove_entry(i)).is_none()),
                 None => return Step::Skip,
             };
             let id = model.items[pos].id;
@@ -813,7 +832,10 @@ fn apply(root: &mut Relations, model: &mut Model, handles: &mut Handles, f: &[&s
                 (_, Some(p)) => p,
             };
             if j >= model.alts(i).map(|a| a.len()).unwrap_or(0) {
-                return Step::Skip;
+                return match (o, *mode) {
+                    (Opnd::Ok(_, r), "f") => Step::OutOfRange(guard(|| root.get_entry(i).unwrap().replace(j, r)).is_none()),
+                    _ => Step::Skip,
+                };
             }
             let id = model.items[pos].id;
             let (m, r) = match o {
@@ -837,6 +859,9 @@ fn apply(root: &mut Relations, model: &mut Model, handles: &mut Handles, f: &[&s
             };
             let len = model.alts(i).map(|a| a.len()).unwrap_or(0);
             if j >= len {
+                if *mode == "f" {
+                    return Step::OutOfRange(guard(|| root.get_entry(i).unwrap().remove_relation(j)).is_none());
+                }
                 return Step::Skip;
             }
             let id = model.items[pos].id;
@@ -1501,6 +1526,11 @@ fn op_pool() -> Vec<String> {
         // LIVE operands (after seeded change C11-r8m1 and audit finding D1): a handle that is still
         // part of this field (`l`) or of another one (`o`) is copied, never moved
         format!("ins.7.p.{}", x("n")),
+        // indices that do not exist: the call panics (`unwrap`) and leaves the field as it was
+        format!("repl.9.p.{}", x("n")),
+        "rme.f.9".into(),
+        format!("erepl.f.0.9.p.{}", x("n")),
+        "rmr.f.0.9".into(),
         "ins.9.l.0".into(),
         "ins.0.l.1".into(),
         "ins.1.l.0".into(),
